@@ -498,6 +498,10 @@ func (h *harness) fixedCorpus() {
 		`{"types":{"A":[{"name":"b","type":"B"}],"B":[null]},"primaryType":"A","message":{"b":{}}}`,
 		`{"types":{"A":[{"name":"b","type":"B[]"}],"B":[{"name":"x","type":"uint8"},null]},"primaryType":"A","message":{"b":[]}}`,
 		`{"types":{"EIP712Domain":[null]},"primaryType":"EIP712Domain"}`,
+		`{"types":{"A[x":[null]},"primaryType":"A[x","message":{}}`,
+		`{"types":{"A[x":[null]},"primaryType":"A[x","message":null}`,
+		`{"types":{"B":[{"name":"a","type":"A[x"}],"A[x":[null]},"primaryType":"B","message":{"a":{}}}`,
+		`{"types":{"B":[{"name":"a","type":"A[x"}],"A[x":[{"name":"x","type":"uint8"}],"A":[null]},"primaryType":"B","message":{"a":{"x":1}}}`,
 		`{"types":{"A":null},"primaryType":"A","message":{}}`,
 		`{"types":{"A":[]},"primaryType":"A","message":null}`,
 		`{"types":{"A":[]},"primaryType":"A"}`,
@@ -701,7 +705,7 @@ func main() {
 	// every position of the two hand-written documents, every replacement
 	h.addDoc([]byte(mailDoc().text()), "valid/mail")
 	h.addDoc([]byte(kitchenDoc().text()), "valid/kitchen")
-	ms, ks := 3, 12
+	ms, ks := 5, 24
 	if thorough {
 		ms, ks = 1, 2
 	}
@@ -709,7 +713,7 @@ func main() {
 	h.mutateAll(kitchenDoc(), "kitchen", r, ks)
 
 	// random type graphs, each mutated at sampled positions
-	nRandom := 120
+	nRandom := 70
 	if thorough {
 		nRandom = 1500
 	}
@@ -722,7 +726,7 @@ func main() {
 		h.mutateAll(d, "random", r, smp)
 	}
 	// arbitrary JSON
-	nLoose := 250
+	nLoose := 200
 	if thorough {
 		nLoose = 5000
 	}
